@@ -35,7 +35,7 @@ REQUIRED = {"template[synthetic-unit-filled]": 10,
             "template[synthetic-thin]": 10, "decodes_judged": 500,
             "witness_layouts_judged": 400,
             "hardness_evaluations": 10, "fresh_process_references": 4,
-            "hardness_iterable_executors": 6,
+            "hardness_iterable_executors": 6, "hardness_on_a_slow_machine": 4,
             "decodes_from_a_reused_point_buffer": 50,
             "hardness_sibling_histories": 2, "errors_of_template_zero": 5,
             "extreme_value_vectors": 100}
@@ -481,7 +481,13 @@ def hardness(ctx, tcase):
     ctx.case()
     v1 = h.evaluate([inst])
     v2 = h.evaluate(inst)
-    v3 = Hardness(fes, runs).evaluate([inst])
+    # ... and on a machine a million times slower (the inner runs are
+    # budgeted in evaluations)
+    from vlib.monitors.clockwarp import slow_machine
+    with slow_machine() as seen:
+        v3 = Hardness(fes, runs).evaluate([inst])
+    ctx.count("hardness_on_a_slow_machine")
+    ctx.count("wall_clock_limits_seen_in_inner_runs", seen.timers)
     ctx.count("hardness_evaluations", 3)
     for v in (v1, v2, v3):
         if not (isinstance(v, float) and 0.0 <= v <= 1.0
